@@ -311,6 +311,8 @@ func main() {
 			polys = append(polys, poly{polys[i].name + " " + tf.name, vs, "placed-" + polys[i].fam})
 		}
 	}
+	// recorded witness of the known finding on subdivision corners (the thorough tier's 5x5 grid contains more)
+	polys = append(polys, poly{"[{0 1} {0 2} {0 4} {4 2}] scaled by 1e-3", []v2.Vec{{X: 0, Y: 0.001}, {X: 0, Y: 0.002}, {X: 0, Y: 0.004}, {X: 0.004, Y: 0.002}}, "placed-witness"})
 	// polygons with a nearly repeated vertex: an extra vertex 5e-10 away from an existing one (a tiny edge that is
 	// neither horizontal nor vertical), at every vertex position of every 11th polygon
 	for i := 0; i < base; i += 11 {
